@@ -339,7 +339,48 @@ func c06Agree(t *rapid.T, data []byte, pf *File, vf *vformat.File) {
 // TestVerifC06Total: arbitrary and structurally hostile byte strings.
 func TestVerifC06Total(t *testing.T) {
 	defer vstats.Flush()
-	rapid.Check(t, func(t *rapid.T) {
+	rapid.Check(t, c06TotalProp)
+}
+
+// FuzzVerifC06Total runs the same property under Go's coverage-guided fuzzer
+// (thorough tier): the fuzzer's bytes are the source of rapid's draws.
+func FuzzVerifC06Total(f *testing.F) {
+	defer vstats.Flush()
+	f.Fuzz(rapid.MakeFuzz(c06TotalProp))
+}
+
+// FuzzVerifC06Raw feeds raw bytes (seeded with valid files and hostile constants) to Parse.
+func FuzzVerifC06Raw(f *testing.F) {
+	defer vstats.Flush()
+	for _, hdr := range []uint32{0, 31, 32, 64, 16378, 16384, 16385, 0xffffffff} {
+		d := make([]byte, vformat.Page)
+		copy(d, vformat.Prefix)
+		binary.LittleEndian.PutUint32(d[28:], hdr)
+		f.Add(d)
+	}
+	if d, err := vformat.Encode("A: b\n\n", []vformat.Rec{{Name: "a", Value: 1, Flags: 0xff}, {Name: "s\nmain.f\n\".g", Value: 2, Flags: 0xff}}, nil); err == nil {
+		f.Add(d)
+	}
+	f.Fuzz(func(t *testing.T, data []byte) {
+		pf, perr, viol := c06Parse(data)
+		if viol != "" {
+			t.Fatalf("%s\ninput: %s", viol, c06Describe(data))
+		}
+		vf, verr := vformat.Decode(data)
+		if perr == nil && verr == nil {
+			want, ok := c06ExpandedCounts(vf.Count)
+			if ok && !reflect.DeepEqual(pf.Count, want) {
+				t.Fatalf("Parse and the independent decoder disagree: %s", c06Diff(want, pf.Count))
+			}
+		}
+		if verr == nil && perr != nil && len(vf.Validate()) == 0 {
+			t.Fatalf("well-formed file rejected by Parse: %v", perr)
+		}
+	})
+}
+
+func c06TotalProp(t *rapid.T) {
+	{
 		var data []byte
 		class := rapid.SampledFrom([]string{"skeleton", "skeleton", "skeleton", "mutated", "mutated", "bytes", "short"}).Draw(t, "class")
 		switch class {
@@ -382,7 +423,7 @@ func TestVerifC06Total(t *testing.T) {
 		if verr == nil && perr != nil && len(vf.Validate()) == 0 {
 			t.Fatalf("well-formed file (independent validator finds nothing wrong) rejected by Parse: %v", perr)
 		}
-	})
+	}
 }
 
 // TestVerifC06Faithful: well-formed files of any shape from the independent writer.
